@@ -127,8 +127,10 @@ def run(ck: Check) -> None:
         "scanners: close / find_first / wordtag), str.isspace, \\w on ASCII, str.lstrip/rstrip",
     ]
     ck.assumptions = [
-        "theorems: text and bodies over an alphabet without '{' and without the first characters of the opening delimiters "
-        "(no_collision); markup-like fragments inside text are covered by the correspondence run only",
+        "theorem C10_whitespace_control holds under the occurrence guard no_collision_occ: any characters in texts as long as no "
+        "opening delimiter occurs at a position inside the text (an occurrence completed by the following markup included), any "
+        "characters in a body as long as its own closing pattern matches at no position inside it; block-comment bodies that "
+        "contain complete markup and the inner lines of liquid tags are covered by the correspondence run only",
         "the parser/renderer is modelled for the literal fragment only (content, comments, doc, raw, inline comment, "
         "output/echo of a quoted string without escapes)",
     ]
@@ -193,7 +195,7 @@ def run(ck: Check) -> None:
                      {"type": "template", "source": src, "reference": None, "impl_tokens": toks, "impl_render": s,
                       "model": model[:1500],
                       "broken": "correspondence Lex.tokenize/render_toks ~ Environment.tokenizer / from_string().render "
-                                "(theorems C10_whitespace_control_partial, C10_raw_verbatim, C10_comments_silent)"},
+                                "(theorems C10_whitespace_control, C10_raw_verbatim, C10_comments_silent)"},
                      no_input=True)
     ck.extra["model_mismatches"] = len(mm)
     ck.extra["mismatches_explained_by_oracle"] = len([i for i in mm if i in explained])
